@@ -428,7 +428,9 @@ class AQTSampler(cirq.Sampler):
         trial_results: list[cirq.Result] = []
         for param_resolver in cirq.to_resolvers(params):
             id_str = str(uuid.uuid1())
-            num_qubits = len(program.all_qubits())
+            # Operations address qubits by their line index, so the register must reach the largest
+            # index used, also when the circuit leaves some of the lower qubits idle.
+            num_qubits = max((cast(cirq.LineQubit, q).x for q in program.all_qubits()), default=-1) + 1
             json_str = self._generate_json(circuit=program, param_resolver=param_resolver)
             results = self._send_json(
                 json_str=json_str, id_str=id_str, repetitions=repetitions, num_qubits=num_qubits
